@@ -33,6 +33,10 @@ fn is_ok_reply(text: &str) -> bool {
 
 fn set_env(url: &str, key: Option<&str>) {
     unsafe {
+        // Ambient variables of the OpenAI client library must never stand in for BLOCKWATCH_AI_*.
+        std::env::set_var("OPENAI_API_KEY", "sk-ambient-key-must-not-be-used");
+        std::env::set_var("OPENAI_BASE_URL", &FakeAi::global().url);
+        std::env::set_var("OPENAI_ADMIN_KEY", "sk-ambient-admin");
         std::env::set_var("BLOCKWATCH_AI_API_URL", url);
         std::env::set_var("BLOCKWATCH_AI_MODEL", MODEL);
         match key {
